@@ -9,6 +9,7 @@ and (b) a fault-free twin context that executed only the committed effects.
 """
 import io
 import json
+import copy
 import sys
 
 import world as W
@@ -155,8 +156,10 @@ def gen_effect(rng, vals):
         return {"e": "regex", "v": v}
     if r < 0.91:
         return {"e": "rxdef", "v": v}
-    if r < 0.97:
+    if r < 0.95:
         return {"e": "taint", "fresh": rng.randrange(len(FRESH)), "v": v}
+    if r < 0.98:
+        return {"e": "mutate", "name": name, "v": v}
     return {"e": "local", "name": rng.choice(LOCALS), "v": v}
 
 
@@ -176,6 +179,10 @@ def effect_src(e):
         return "%s = %d;" % (e["slot"], e["v"])
     if k == "regex":
         return "rx = /a/g; rx.test('aaaaaa'); rx.test('aaaaaa');" if e["v"] % 2 else "rx = /a/g; rx.test('aaaaaa');"
+    if k == "mutate":
+        n = e["name"]
+        return ("if (typeof %s == 'object' && %s !== null) { if (typeof %s.push == 'function') { %s.push(%d); } else { %s.zq = %d; "
+                "if (%s.k && typeof %s.k.push == 'function') { %s.k.push(%d); } } }" % (n, n, n, n, e["v"], n, e["v"], n, n, n, e["v"]))
     if k == "taint":
         # write on a freshly made object in every way a script can (no effect on any later evaluation)
         return ("(function(){ var t9 = %s; try { t9.zq9 = %d; } catch (e1) {} try { if (typeof t9.push == 'function') { t9.push(%d); } else { t9[0] = %d; } } catch (e2) {} })();"
@@ -199,6 +206,14 @@ def apply_effect(model, e):
         model["rx"] = 2 if e["v"] % 2 else 1
     elif k == "rxdef":
         model["rxdef"] = True
+    elif k == "mutate":
+        cur = model["g"].get(e["name"])
+        if isinstance(cur, list) and cur[:1] != ["fn"]:
+            cur.append(e["v"])
+        elif isinstance(cur, dict):
+            cur["zq"] = e["v"]
+            if isinstance(cur.get("k"), list):
+                cur["k"].append(e["v"])
 
 
 def expected_observation(model):
@@ -278,7 +293,12 @@ def gen_op(rng, ctxs, vals, allow_reenter):
     if r < 0.12:
         v = vals[0]
         vals[0] += 1
-        return {"op": "set", "ctx": c, "name": rng.choice(NAMES), "v": v}
+        op = {"op": "set", "ctx": c, "name": rng.choice(NAMES), "v": v}
+        if rng.random() < 0.4:
+            # the embedder hands the SAME Python list/dict to several contexts (or twice to one): each
+            # set() must give the context a value of its own
+            op["py"] = rng.choice(("list", "dict"))
+        return op
     if r < 0.2:
         return {"op": "get", "ctx": c, "name": rng.choice(NAMES)}
     if r < 0.28 and cfg["T_work"]:
@@ -378,6 +398,7 @@ class Sim:
         self.inflight = []
         self.nested_queue = []
         self.steps = 0
+        self.pyobjs = {"list": [1, 2, 3], "dict": {"a": 1, "k": [1, 2]}}     # shared by identity within the case
         for cfg in case["ctxs"]:
             T = cfg["T_work"] * S.tick if cfg["T_work"] else None
             self.ctxs.append(Context(time_limit=T, memory_limit=cfg["M"]))
@@ -430,14 +451,15 @@ class Sim:
         kind = op["op"]
         W.log("op", kind, c, op.get("terminal"))
         if kind == "set":
-            ctx.set(op["name"], op["v"])
-            twin.set(op["name"], op["v"])
-            model["g"][op["name"]] = op["v"]
+            val = self.pyobjs[op["py"]] if op.get("py") else op["v"]
+            ctx.set(op["name"], val)
+            twin.set(op["name"], val)
+            model["g"][op["name"]] = copy.deepcopy(val)
             return
         if kind == "get":
             got = W.canon(ctx.get(op["name"]))
             exp = model["g"].get(op["name"])
-            if isinstance(exp, list):
+            if isinstance(exp, list) and exp[:1] == ["fn"]:
                 return  # a function: get() hands back the function object
             if got != exp:
                 self.bad("C12.persist", "get(%s) on context %d returned %r, expected %r" % (op["name"], c, got, exp), step)
